@@ -593,7 +593,7 @@ func TestVerifC45(t *testing.T) {
 			runOne(cs)
 		}
 		r := vNewRand(vSeed())
-		n := vN(400, 4000)
+		n := vN(300, 3000)
 		for i := 0; i < n; i++ {
 			runOne(c45Gen(r.Fork()))
 		}
